@@ -161,7 +161,10 @@ func main() {
 				fmt.Fprintln(os.Stderr, "model file without overlay header:", m)
 				os.Exit(2)
 			}
-			cfg.Overlay[filepath.Join(*repo, strings.TrimSpace(strings.TrimPrefix(first, "// overlay: ")))] = b
+			rel := strings.TrimSpace(strings.TrimPrefix(first, "// overlay: "))
+			cfg.Overlay[filepath.Join(*repo, rel)] = b
+			// the package that hosts the model must be part of the load
+			patterns = append(patterns, "./"+filepath.Dir(rel))
 		}
 	}
 	pkgs, err := packages.Load(cfg, patterns...)
@@ -184,7 +187,7 @@ func main() {
 	}
 	prog, _ := ssautil.AllPackages(pkgs, ssa.NaiveForm)
 	prog.Build()
-	e := &Engine{prog: prog, fset: prog.Fset, d: NewDecls(), cs: cs, fnByKey: map[string]*ssa.Function{}, pkgByPath: map[string]*ssa.Package{},
+	e := &Engine{repoDir: *repo, prog: prog, fset: prog.Fset, d: NewDecls(), cs: cs, fnByKey: map[string]*ssa.Function{}, pkgByPath: map[string]*ssa.Package{},
 		srcCache: map[string][]string{}, localOK: map[*ssa.Alloc]bool{}, typeIDs: map[string]int{}, immutableGlobals: map[*ssa.Global]bool{}, errGlobals: map[*ssa.Global]int{},
 		maxPaths: 6000, maxSteps: 400000, loopIdx: map[*ssa.Function]map[*ssa.BasicBlock]int{}, loopBlocks: map[*ssa.BasicBlock]map[*ssa.BasicBlock]bool{}, verbose: *verbose}
 	for _, sp := range prog.AllPackages() {
@@ -550,6 +553,9 @@ func report(e *Engine, prop, tier string, seed int, verif string, results []*Fun
 			for _, c := range fc.InvAssumed {
 				trusted = append(trusted, "object invariant assumed at entry of "+fc.Key+" (established by the constructor, preserved by the type's methods, representation writers restricted structurally): "+c.Text)
 			}
+			if fc.FrameTrusted && !fc.Trusted {
+				trusted = append(trusted, "assumed frame (assigns clause not checked against the body) of "+fc.Key)
+			}
 			for _, c := range fc.TrustedEnsures {
 				trusted = append(trusted, "assumed postcondition of "+fc.Key+" (not checked against the body): "+c.Text)
 			}
@@ -640,9 +646,15 @@ func tryReplay(e *Engine, verif, prop string, o *ObStatus, path string) bool {
 	}
 	reproduced := false
 	if o.Status == "sat" {
-		if ok, out := runReplayDriver(verif, prop, o); out != "" {
+		if ok, out, src, pkg := runReplayDriver(e, verif, prop, o); out != "" {
 			rec["replay_output"] = out
 			reproduced = ok
+			if src != "" {
+				// `./check replay <path>` re-runs this test against the current tree
+				rec["replay_test"] = src
+				rec["replay_pkg"] = pkg
+				rec["replay_run"] = "TestVerifReplay"
+			}
 		}
 	}
 	rec["reproduced_on_real_code"] = reproduced
